@@ -118,9 +118,9 @@ func (s *Solver) start() error {
 		fmt.Fprintln(s.in, "(set-logic ALL)")
 	}
 	fmt.Fprintln(s.in, "(set-option :produce-models true)")
-	if !s.cvc5 {
+	if !s.cvc5 && os.Getenv("GOSYM_S2T") != "" {
 		// fall back to the tactic-based solver when the incremental core is slow
-		fmt.Fprintln(s.in, "(set-option :combined_solver.solver2_timeout 100)")
+		fmt.Fprintf(s.in, "(set-option :combined_solver.solver2_timeout %s)\n", os.Getenv("GOSYM_S2T"))
 	}
 	// re-assert axioms after restart
 	s.pendingAxioms = append(append([]*Term{}, s.axioms...), s.pendingAxioms...)
@@ -380,7 +380,7 @@ func (s *Solver) Check(assertions []*Term, timeoutMs int, values []*Term) (Resul
 			}
 			script = strings.Replace(script, "(check-sat)\n", defs.String()+"(check-sat)\n"+q.String(), 1)
 		}
-		fr, out := OneShot(s.bin, script, 3*timeoutMs/1000+5)
+		fr, out := OneShot(s.bin, script, timeoutMs/1000+2)
 		s.St.FreshRetries++
 		if fr == Unsat {
 			res = Unsat
